@@ -1,0 +1,13 @@
+//go:build verif
+
+// Contracts for package types of 02-client (comment-only; read by /verif's tibcvc).
+package types
+
+//@ spec csDecode(b: str): obj
+//@ spec consDecode(b: str): obj
+
+//@ extern MustUnmarshalClientState(cdc, bz) (result)
+//@   ensures dec: result == csDecode(str(bz)) && result != nil
+//@
+//@ extern MustUnmarshalConsensusState(cdc, bz) (result)
+//@   ensures dec: result == consDecode(str(bz)) && result != nil
